@@ -134,6 +134,12 @@ def _replay_chunk(keys):
             if why:
                 mismatches.append({"h": list(pre), "at": n, "why": why,
                                    "call": cfg.calls[k - 1]})
+                if relations:
+                    try:
+                        for pred, detail in check_relations(cfg, run, ctx, P.project(run.seq, ctx)):
+                            hookv.append((pred, pre, detail))
+                    except Exception:  # noqa: BLE001
+                        pass
                 if template:
                     # the build relations are implementation-vs-implementation: they are still
                     # decided on a behaviour that drifted from the model (real outcomes are used)
